@@ -63,6 +63,9 @@ BUILT["C14"]=("explicit-state breadth-first search over PSBT operation histories
 BUILT["C18"]=("exhaustive enumeration of policies up to a node bound with truth-table (all assignments) oracles",
         "ALL semantic policies up to the node bound over 12 atoms (repeated atoms, TRIVIAL/UNSATISFIABLE children, thresholds with every k): normalized/sorted keep the truth table over all assignments, at_age/at_lock_time equal the restriction for every value around every lock in both units, n_keys, minimum_n_keys vs exhaustive assignment search; entails vs truth-table implication on ALL ordered pairs up to the pair bound; concrete policies: lift keeps the truth table, check_timelocks fires iff some satisfying path mixes units.",
         "3 C18")
+BUILT["C08"]=("exhaustive enumeration of concrete policies up to a leaf bound x every compiler entry point; truth-table and execution oracles",
+        "ALL concrete policies up to the leaf bound (and / weighted or / thresh, leaves over keys, hash, height/time locks) through compile::<4 contexts>, compile_to_descriptor (5 contexts), compile_tr, compile_tr_native (3 caps), compile_tr_private_experimental, with and without an unspendable key: every Ok output has the policy's truth table under the harness's own lift (all assignments), small policies are additionally executed on the reference Script machine in every world, outputs are sane/signed/non-malleable/within limits/free of context-forbidden fragments, every node's stored type equals from_ast, and the string re-parses with the default parser.",
+        "3 C08")
 NA_REASON={}
 
 def hooks_commits():
